@@ -635,5 +635,7 @@ def run(ctx) -> None:
     ctx.rule('F10', 'thermal-storage plant: total = storage + auxiliary at every step; annual series sum their own step series, same window and factor')
     check_shared_storage(ctx)
     check_sutra_plant(ctx)
+    from rules.helper_contract import run_shared
+    run_shared(ctx, 'F11', 'F12', 5)
     ctx.undecided('trapezoid accuracy and np.interp behaviour', 'CoolProp property values', 'AGS plant (own model family, not runnable offline)')
     ctx.assume('np.trapz and np.add.accumulate are linear')
